@@ -3,7 +3,7 @@
    happens outside the limits. *)
 From Coq Require Import NArith ZArith Arith List Lia Bool.
 From Pq Require Import Base.Bytes Base.Bits Base.Err Base.ListX
-  Proofs.BytesProofs Proofs.CodecProofs Proofs.CBitpackProofs Proofs.CRleProofs Proofs.CVarintProofs
+  Proofs.BytesProofs Proofs.CodecProofs Proofs.CBitpackProofs Proofs.CRleProofs Proofs.CVarintProofs Proofs.CDeltaProofs
   Codec.Varint Codec.Hybrid Impl.CVarint Impl.CBitpack Impl.CRle Impl.CDelta Impl.PyPack.
 Import ListNotations.
 Open Scope N_scope.
@@ -38,6 +38,15 @@ Theorem varint_safe n rest : n < 2 ^ 64 -> bytes_ok rest ->
 Proof.
   intros Hn Hr. eexists. split; [apply varint_reads_spec_encoding; assumption|].
   rewrite app_length. lia.
+Qed.
+
+Theorem delta_read_bitpacked_safe w g input :
+  0 < w <= 28 -> g < 2 ^ 28 -> bytes_ok input -> g * w <= N.of_nat (length input) ->
+  exists vals rest k, c_delta_read_bitpacked input w (8 * g) = Ok (vals, rest, k) /\
+                      k <= N.of_nat (length input) /\ length vals = N.to_nat (8 * g).
+Proof.
+  intros Hw Hg Hok Hlen. do 3 eexists. split; [apply delta_read_bitpacked_correct; assumption|].
+  split; [exact Hlen|apply bp_dec_length].
 Qed.
 
 (* ---- outside the limits: computed witnesses ---- *)
